@@ -89,6 +89,20 @@ def run(ctx, case):
             return
     maps = list(obj.maps) if hasattr(obj, "maps") else [obj]
     for m in maps[:2]:
+        for rnd_ in (0, 1):
+            if rnd_ == 1:
+                if len(m.bpms) < 2 or ctx.cur_k is None or ctx.cur_k % 3:
+                    break
+                # in-place edit of the tempo list (same frame object): values rotated, so another bpm runs longest
+                vals = m.bpms.bpm.tolist()
+                m.bpms.bpm = vals[1:] + vals[:1]
+                ctx.state("c19.edited_in_place", True)
+            run_queries(m, case, dominant_bpm, scroll_speed, sv_normalize)
+    return
+
+
+def run_queries(m, case, dominant_bpm, scroll_speed, sv_normalize):
+    if True:
         for f, a in ((dominant_bpm, (m,)), (scroll_speed, (m,)), (scroll_speed, (m, case["override"])),
                      (sv_normalize, (m,)), (sv_normalize, (m, case["override"]))):
             if f is sv_normalize and "svs" not in m.objs:
